@@ -129,6 +129,11 @@ func C16(c *fw.Ctx) {
 			if d.Call > 0 {
 				prev = d.Seq[d.Call-1]
 			}
+			if d.ExamplesOnly && regexUnionProject(j.Files) {
+				// every sequence runs on a build of its own: this is the build-to-build difference D27, not an effect of the call order
+				c.Violate("unrepeatable:"+sigRegexExample, fmt.Sprintf("sequence %v: call %d (%s) differs from the canonical bytes only inside example strings of a project with a regex TYPE", d.Seq, d.Call, d.Op), replayOf(j, res))
+				continue
+			}
 			c.Violate(fmt.Sprintf("unrepeatable:%s-after-%s", d.Op, prev),
 				fmt.Sprintf("sequence %v: call %d (%s) returned %s, canonical is %s", d.Seq, d.Call, d.Op, d.Got, d.Canon), replayOf(j, res))
 		}
